@@ -2,6 +2,9 @@
 concrete inputs (engine self-test: the executor's semantics for each node type is CPython's)."""
 
 
+import contextlib
+
+
 def f_branch(a, b):
     if a < b:
         r = 1
@@ -145,6 +148,25 @@ def f_slice(a, b, c):
     return t[:2], t[1], t[-1], t + (1,)
 
 
+def f_suppress(a):
+    r = 0
+    with contextlib.suppress(KeyError, ValueError):
+        r += 1
+        if a == 1:
+            raise KeyError
+        if a == 2:
+            raise ValueError
+        r += 10
+    try:
+        with contextlib.suppress(KeyError):
+            if a == 3:
+                raise IndexError
+            r += 100
+    except LookupError:
+        r += 1000
+    return r
+
+
 CASES = {
     'f_branch': [(0, 1), (1, 1), (2, 1), (-1, -2)],
     'f_chain': [(1, 2, 3), (3, 2, 1), (1, 1, 0), (0, 0, 0)],
@@ -160,4 +182,5 @@ CASES = {
     'f_is_none': [(0,), (3,), (9,)],
     'f_bitor': [(0,), (1,)],
     'f_slice': [(1, 2, 3)],
+    'f_suppress': [(0,), (1,), (2,), (3,)],
 }
